@@ -392,6 +392,27 @@ func c01Gen(r *rand.Rand, tier string) []string {
 		}
 		return c01Dims(r, s)
 	}
+	// many small profiles drained by 4..12 consumers: whatever goes wrong only when two consumers meet at a particular
+	// point (the last operation, the change of level) has one chance per profile
+	nConc := 800
+	if tier == "thorough" {
+		nConc = 8000
+	}
+	for i := 0; i < nConc; i++ {
+		d := time.Duration(1+r.Intn(3000)) * time.Millisecond
+		rate := float64(1+r.Intn(4000)) / (float64(d) / 1e9) // 1..4000 operations
+		var c string
+		switch r.Intn(4) {
+		case 0:
+			c = lineIn(math.Floor(rate), math.Floor(rate/2), int64(d))
+		case 1:
+			st := 1 + int64(rate/3)
+			c = stepIn(math.Floor(rate/3), math.Floor(rate/3)+float64(2*st), st, int64(d))
+		default:
+			c = constIn(math.Floor(rate)+0.5, int64(d))
+		}
+		out = append(out, c+fmt.Sprintf(" conc=%d", 4+r.Intn(9)))
+	}
 	// ill-conditioned lines
 	for i := 0; i < nIll; i++ {
 		d := c01Duration(r)
@@ -976,7 +997,7 @@ func main() {
 			"as large as the token budget allows; a stream of ill-conditioned lines (ends 1..1000 ulps apart, relative slope down to 1e-15, one end (nearly) zero); " +
 			"a stream at and beyond the validation border (negative rates, durations < 1 ms, step/times < 1); fixed enumeration of fractional-second lines; " +
 			"independently of the numbers: the duration written as ns / 1m30.5s / decimal seconds / ms / us / minutes, the section as a Go map, with int rates, as YAML text, " +
-			"as a one-element rps list (slice -> composite hook); 6 % of the leaf profiles are never Start()ed (the first Next() is the start), 8 % are drained by 2..8 concurrent consumers; " +
+			"as a one-element rps list (slice -> composite hook); 6 % of the leaf profiles are never Start()ed (the first Next() is the start), 8 % are drained by 2..8 concurrent consumers, plus 800 small profiles by 4..12 consumers; " +
 			"three profiles of 2*10^7 operations (indices beyond 2^24); every const/line/step/once example of docs/{eng,rus}/load-profile.md, decoded from the documented text; thorough adds the full grid of 11 rates x 11 rates x 11 durations and small step grids. non-trivial = at least one token emitted or a rejected configuration; distinct = distinct input line",
 	})
 }
